@@ -38,7 +38,7 @@ META = {
                  "time_utils.decimal_year", "time_utils.decimal_year_to_utc_datetime"],
 }
 
-META["added"] = "Added: ms windows scaled to +-16000 (thorough), callers through catalogs / forecasts, each shard under another process time zone (UTC, JST-9, US Eastern and NZ with DST), the repository's own test-suite as a workload (thorough)."
+META["added"] = "Added: ms windows scaled to +-16000 (thorough), callers through catalogs / forecasts, each shard under another process time zone (UTC, JST-9, US Eastern and NZ with DST), the repository's own test-suite as a workload (thorough). UTC-aware datetimes with another tzinfo object."
 MANIFEST = {
     "technique": "runtime post-conditions on the real time_utils functions (all call sites) vs integer/Fraction arithmetic; exhaustive windows of consecutive milliseconds around calendar boundaries + uniform sampling; round-trip and monotonicity checkers",
     "level_text": "Every ms in +-200 ms (quick) / +-16000 ms (thorough) around epoch 0, all 301 New Years 1900..2200, leap-day boundaries and sampled day/second boundaries is converted both ways through the real functions (exhaustive per window), plus 10^5/10^6 uniform instants, all microsecond phases of 2 ms windows, formatted strings in all supported spellings and decimal-year triples; each call is checked against an integer-arithmetic oracle.",
@@ -326,6 +326,9 @@ def ex_phase(ctx, base_ms, aware=True):
         d = EPOCH + datetime.timedelta(microseconds=us)
         if not aware:
             d = d.replace(tzinfo=None)
+        elif k % 3 == 1:
+            # UTC-aware through another tzinfo OBJECT than the datetime.timezone.utc singleton (a named zero-offset zone)
+            d = d.replace(tzinfo=datetime.timezone(datetime.timedelta(0), "UTC"))
         ok, r, tb = ctx.call(tu.datetime_to_utc_epoch, d)
         if ok:
             if prev is not None and r < prev:
